@@ -97,6 +97,21 @@ def seeded(only=None):
     return ok
 
 
+def keeping_evidence(fn, *a):
+    """the self-test runs checks that are meant to fail: the evidence files of the real checks are put back afterwards"""
+    import shutil
+    ev = os.path.join(ROOT, "evidence")
+    bak = os.path.join(ROOT, "work", "evidence_before_selftest")
+    shutil.rmtree(bak, ignore_errors=True)
+    os.makedirs(os.path.dirname(bak), exist_ok=True)
+    shutil.copytree(ev, bak)
+    try:
+        return fn(*a)
+    finally:
+        shutil.rmtree(ev, ignore_errors=True)
+        shutil.copytree(bak, ev)
+
+
 def main():
     args = sys.argv[1:]
     props = [a for a in args if a.startswith("C") and len(a) == 3] or sorted(MODULE_OF)
@@ -105,9 +120,9 @@ def main():
     if "variants" in what:
         ok &= variants()
     if "binding" in what:
-        ok &= binding(props)
+        ok &= keeping_evidence(binding, props)
     if "seeded" in what:
-        ok &= seeded([a for a in args if a.startswith("C")] or None)
+        ok &= keeping_evidence(seeded, [a for a in args if a.startswith("C")] or None)
     print("SELFTEST", "OK" if ok else "FAILED")
     return 0 if ok else 1
 
